@@ -412,7 +412,7 @@ PROPS = {
             }
         ],
         "trusted": [
-            "modelled, not verified: the yacc SQL parser/normalizer (formatting invariance is checked differentially on the real AcraCensor only), the pattern relation over the 13 placeholders (per-handler exact/table/pattern match results are inputs of the chain model, computed by the real matchers; oracle: a pattern obtained from a statement by generalising literals / the WHERE clause must match it)",
+            "modelled, not verified: the yacc SQL parser/normalizer (formatting invariance is checked differentially on the real AcraCensor only), the pattern relation over the 13 placeholders (per-handler exact-query/pattern match results are inputs of the chain model, computed by the real matchers; the table rule is evaluated by the model on the parsed FROM tree; oracle: a pattern obtained from a statement by generalising literals / the WHERE clause must match it)",
             "session model covers the simple query protocol ('Q'); extended protocol (Parse/Bind/Execute) and the MySQL proxy are not modelled",
             "in-process PostgreSQL rig (harness/vh/pgrig.go): net.Pipe pairs, scripted client and fake back end, read-start synchronisation on the proxy's database connection"
         ],
